@@ -6,6 +6,34 @@ source).  All hold for every dataset (no size bound), any number of groups, ever
 `flip`, grid size `N ≥ 1` and also for a forced grid index (the rule at ANY grid index is parity-satisfying).
 "Every group contains both labels" is `BothLabels groups`; a successful fit implies it.
 -/
+/-
+CLAUSE → THEOREM TABLE (review R1-B; property text in properties.jsonl, id C04)
+
+| clause of the property text                                              | theorem(s)                                                        |
+|--------------------------------------------------------------------------|-------------------------------------------------------------------|
+| "after fit ... whenever every group contains both labels" (fit succeeds)  | fit_simple_succeeds, fit_EO_succeeds; converse: parity_* conclude |
+|                                                                          | BothLabels; fit_simple_none_iff                                   |
+| a group lacks a label ⇒ ValueError (outside the quantifier)               | fit_simple_rejects_degenerate, fit_EO_rejects_degenerate          |
+| "expected value under the fitted randomised rule ... computed on the      | expectedMetric = m.eval (expCM (ruleProb rule) rows): sums over   |
+|  training rows of each group"                                            | the ROWS of the predict-time probability; tied to `_pmf_predict`  |
+|                                                                          | by fit_predict_consistent_simple / _EO (Pmf.thrPositive)          |
+| "... of the constrained metric (selection rate, FPR, FNR, TPR, TNR)       | parity_simple (+_pairwise), ONE theorem generic in `xm` with       |
+|  is the same for all groups"                                             | IsConstraintMetric xm := xm ∈ LIFTED SIMPLE_CONSTRAINTS ∨ eoX;     |
+|                                                                          | all_simple_constraints_covered; parity_simple_of_bothLabels       |
+| "both FPR and TPR for equalized odds"                                     | parity_EO, parity_EO_of_bothLabels                                 |
+| "up to floating-point rounding"                                           | exact equality in Rat; rounding = tolerance of the correspondence  |
+|                                                                          | (measured, see harness/thr_common.py TOL); F18 = the one place      |
+|                                                                          | where rounding changes the RULE (threshold_betweenness_suffices,   |
+|                                                                          | midpoint_strictly_between, threshold_on_score_breaks_rule)         |
+| "any scores (including ties)"                                             | no hypothesis on scores anywhere; sweep_point_sound               |
+| "any number of groups"                                                    | groups : List (List Row) arbitrary (EO: groups ≠ [] for success)  |
+| "either setting of flip"                                                  | flip : Bool universally quantified                                |
+| "any grid size"                                                           | N ≥ 1 (hN).  NOT COVERED: grid_size = 0 (real code: grid {0},      |
+|                                                                          | works; driver refuses n = 0; generator never draws it)            |
+Supporting: metric_affine, expected_metric_of_mixture, hull_invariants, sortLex_sorted, interpIndex_bracket (no x/0:
+`interpolateAt` returns none on a zero-width bracket and group_rule_exists shows it is never taken), group_rule_exists,
+src_* (what the lifted text must say).
+-/
 import FairModel.Lemmas.ThresholdFit
 import FairModel.Lemmas.ThresholdPredict
 
@@ -318,6 +346,91 @@ theorem parity_EO (flip : Bool) (obj : Metric) (N : Nat) (groups : List (List Ro
         rw [hrx]; exact lt_of_le_of_ne (by linarith) (fun h => hd (by rw [hrx]; linarith))
       rw [div_le_one this]; rw [hrx]; linarith
 
+
+/-! ### The property as ONE statement, and the error branch (review additions)
+
+`parity_simple` / `parity_EO` take a successful fit as hypothesis; `fit_*_succeeds` derive it from "every group contains both
+labels".  Composed: the ONLY hypotheses are `BothLabels groups`, `1 ≤ N` (the model's grid `i / N`; `grid_size = 0` is refused
+by the driver, see DESIGN) and — for the simple constraints — that the metric is one of the LIFTED `SIMPLE_CONSTRAINTS`
+(all of them: `all_simple_constraints_covered`).  No sortedness, no distinct scores, no lower bound on the number of groups
+(equalized odds: at least one group, because `np.amin` of an empty frame raises). -/
+
+/-- every entry of the lifted `SIMPLE_CONSTRAINTS` table (selection rate / demographic parity, FPR, FNR, TPR, TNR) is covered
+    by `parity_simple`; equalized odds' x metric (FPR) too -/
+theorem all_simple_constraints_covered :
+    (∀ p ∈ simpleConstraints, IsConstraintMetric p.2) ∧ IsConstraintMetric eoXMetric ∧
+    simpleConstraints.map (·.2) =
+      [.selection_rate, .selection_rate, .false_positive_rate, .false_negative_rate, .true_positive_rate,
+       .true_negative_rate] := by decide +kernel
+
+/-- **C04, simple constraints, in one statement**: whenever every group contains both labels, the fit succeeds and the
+    expected constrained metric of the fitted randomised rule, computed on each group's own training rows, is the same for
+    all groups (any scores incl. ties, any number of groups, either `flip`, any grid size `N ≥ 1`, any objective) -/
+theorem parity_simple_of_bothLabels (flip : Bool) (xm ym : Metric) (N : Nat) (groups : List (List Row))
+    (hN : 1 ≤ N) (hx : IsConstraintMetric xm) (hb : BothLabels groups) :
+    ∃ fit, fitSimple flip xm ym N groups none = some fit ∧ fit.rules.length = groups.length ∧
+      ∀ j k (hj : j < groups.length) (hk : k < groups.length) (hj' : j < fit.rules.length) (hk' : k < fit.rules.length),
+        expectedMetric xm fit.rules[j] groups[j] = expectedMetric xm fit.rules[k] groups[k] := by
+  obtain ⟨fit, hfit⟩ := fit_simple_succeeds flip xm ym N groups hN hx hb
+  obtain ⟨_, _, hlen, _⟩ := parity_simple flip xm ym N groups none fit hN hx hfit
+  exact ⟨fit, hfit, hlen, fun j k hj hk hj' hk' =>
+    parity_simple_pairwise flip xm ym N groups none fit hN hx hfit j k hj hk hj' hk'⟩
+
+/-- **C04, equalized odds, in one statement**: both the expected FPR and the expected TPR coincide across groups -/
+theorem parity_EO_of_bothLabels (flip : Bool) (obj : Metric) (N : Nat) (groups : List (List Row))
+    (hN : 1 ≤ N) (hg : groups ≠ []) (hb : BothLabels groups) :
+    ∃ fit yBest, fitEO flip obj N groups none = some (fit, yBest) ∧ fit.rules.length = groups.length ∧
+      ∀ j k (hj : j < groups.length) (hk : k < groups.length) (hj' : j < fit.rules.length) (hk' : k < fit.rules.length),
+        expectedMetric eoXMetric fit.rules[j] groups[j] = expectedMetric eoXMetric fit.rules[k] groups[k] ∧
+        expectedMetric eoYMetric fit.rules[j] groups[j] = expectedMetric eoYMetric fit.rules[k] groups[k] := by
+  obtain ⟨⟨fit, yBest⟩, hfit⟩ := fit_EO_succeeds flip obj N groups hN hg hb
+  obtain ⟨_, _, hlen, h⟩ := parity_EO flip obj N groups none fit yBest hN hfit
+  refine ⟨fit, yBest, hfit, hlen, fun j k hj hk hj' hk' => ?_⟩
+  rw [(h j hj hj').1, (h k hk hk').1, (h j hj hj').2.1, (h k hk hk').2.1]
+  exact ⟨rfl, rfl⟩
+
+/-- **error branch** (`ValueError: Degenerate labels`): if some group lacks a label the model fit returns `none` — for
+    every metric pair, grid size, `flip`, forced index; no theorem above says anything about such data -/
+theorem fit_simple_rejects_degenerate (flip : Bool) (xm ym : Metric) (N : Nat) (groups : List (List Row))
+    (force : Option Nat) (g : List Row) (hg : g ∈ groups) (hdeg : nPos g = 0 ∨ nNeg g = 0) :
+    fitSimple flip xm ym N groups force = none := by
+  cases h : fitSimple flip xm ym N groups force with
+  | none => rfl
+  | some fit =>
+    exfalso
+    obtain ⟨hulls, _, _, hh, _⟩ := fitSimple_some h
+    have := hullsOf_bothLabels hh g hg
+    rcases hdeg with h0 | h0
+    · exact this.1 h0
+    · exact this.2 h0
+
+theorem fit_EO_rejects_degenerate (flip : Bool) (obj : Metric) (N : Nat) (groups : List (List Row))
+    (force : Option Nat) (g : List Row) (hg : g ∈ groups) (hdeg : nPos g = 0 ∨ nNeg g = 0) :
+    fitEO flip obj N groups force = none := by
+  cases h : fitEO flip obj N groups force with
+  | none => rfl
+  | some fy =>
+    exfalso
+    obtain ⟨fit, yb⟩ := fy
+    obtain ⟨hulls, _, _, _, hh, _⟩ := fitEO_some h
+    have := hullsOf_bothLabels hh g hg
+    rcases hdeg with h0 | h0
+    · exact this.1 h0
+    · exact this.2 h0
+
+/-- hence, for `N ≥ 1` and a constraint metric: the fit is rejected IFF some group lacks a label -/
+theorem fit_simple_none_iff (flip : Bool) (xm ym : Metric) (N : Nat) (groups : List (List Row))
+    (hN : 1 ≤ N) (hx : IsConstraintMetric xm) :
+    fitSimple flip xm ym N groups none = none ↔ ¬ BothLabels groups := by
+  constructor
+  · intro h hb
+    obtain ⟨fit, hfit⟩ := fit_simple_succeeds flip xm ym N groups hN hx hb
+    rw [h] at hfit; cases hfit
+  · intro h
+    cases hf : fitSimple flip xm ym N groups none with
+    | none => rfl
+    | some fit => exact absurd (parity_simple flip xm ym N groups none fit hN hx hf).1 h
+
 /-! ### Fit → predict: the parity theorems are about the pmf that `predict` really uses
 
 `ThresholdPredict.dictOf names fit.rules` is the `interpolation_dict` the fit stores (one Bunch per sensitive-feature value),
@@ -410,5 +523,14 @@ example : (fitEO false .accuracy_score 4 ex none).map (fun f =>
       (ThresholdPredict.predictPmf ["a", "b", "c"] f.1 [("a", 7/8), ("a", 3/4), ("b", 5/8), ("zz", 1)]).map (·.2)) =
     some [4/7, 5/14, 1/2, 0] := by
   decide +kernel
+
+
+-- review additions: the one-statement forms' hypotheses are met by `ex` (3 groups, ties, both labels) ...
+example : 1 ≤ 5 ∧ IsConstraintMetric .false_positive_rate ∧ BothLabels ex ∧ ex ≠ [] ∧ ex.length = 3 := by decide +kernel
+-- ... and the error branch: drop the only negative of a group and the fit is rejected, for simple constraints and EO
+def exDeg : List (List Row) := [gA, [⟨1, true⟩, ⟨0, true⟩], gC]
+example : nNeg [⟨1, true⟩, ⟨0, true⟩] = 0 ∧ [⟨1, true⟩, ⟨0, true⟩] ∈ exDeg := by decide +kernel
+example : fitSimple true .false_positive_rate .accuracy_score 5 exDeg none = none := by decide +kernel
+example : (fitEO false .accuracy_score 4 exDeg none).isNone = true := by decide +kernel
 
 end C04
